@@ -812,9 +812,9 @@ def small_scope_cases():
 
 def plan(ctx, scale=1.0):
     quick = ctx.tier == 'quick'
-    n_serial = int((170 if quick else 2600) * ctx.boost * scale)
-    n_thread = int((130 if quick else 2200) * ctx.boost * scale)
-    n_proc = int((8 if quick else 90) * min(ctx.boost, 2) * scale)
+    n_serial = int((420 if quick else 2600) * ctx.boost * scale)
+    n_thread = int((360 if quick else 2200) * ctx.boost * scale)
+    n_proc = int((12 if quick else 90) * min(ctx.boost, 2) * scale)
     rng = ctx.rng
     gen = []
     for _ in range(n_serial):
@@ -828,7 +828,7 @@ def plan(ctx, scale=1.0):
     small = []
     combos = [(b, w, r, c) for b in BACKENDS for w in (True, False) for r in ('serial', 'thread') for c in (True, False)]
     for i, sc in enumerate(small_scope_cases()):
-        picks = combos if not quick else [combos[(i * 5 + k * 7) % len(combos)] for k in range(2 if ctx.boost <= 1 else 5)]
+        picks = combos if not quick else [combos[(i * 5 + k * 7) % len(combos)] for k in range(3 if ctx.boost <= 1 else 6)]
         for b, w, r, c in picks:
             x = json.loads(json.dumps(sc))
             x.update({'backend': b, 'warm': w, 'runner': r, 'nproc': 2 if r == 'thread' else 0, 'cont': c,
@@ -837,7 +837,7 @@ def plan(ctx, scale=1.0):
     ctx.extra['exhaustive_small_scope'] = {
         'cases': len(small), 'shape': 'failing task -> (direct | run intermediate | up-to-date intermediate) -> dependent, '
         'edge kinds task_dep/setup/calc_dep/file/getargs/result_dep/delivered, 6 failure placements, + independent task',
-        'combos': 'backend x warm x serial/thread(2) x --continue: %s' % ('2 per case (rotating)' if quick else 'all 24')}
+        'combos': 'backend x warm x serial/thread(2) x --continue: %s' % ('3 per case (rotating)' if quick else 'all 24')}
     pool += [{'cases': small[i:i + size], 'shrink_s': 6.0} for i in range(0, len(small), size)]
     procs = [(rng.randrange(1 << 60), {'runner': 'process', 'n_max': 6}) for _ in range(n_proc)]
     return pool, [{'gen': procs[i:i + 4], 'shrink_s': 8.0} for i in range(0, len(procs), 4)]
